@@ -362,6 +362,8 @@ for arch, vdef in ARCHS:
         id="C15.SkipString.exact@" + arch, src="c11_skip.c", harness="h_SkipString_exact", units=arch_units(arch) + ["IsSpace"] + ESC + SKIP_LEAVES, defs=[vdef, "UNIT_SkipString", "SKIPSTRING_EXACT", "LMAX=40"], arch=arch,
         route="B(len<=40)", bound="len <= 40 (2*VEC_LEN+8 for sse, VEC_LEN+8 for avx2)", function="SkipString", unwind=42, object_bits=16, timeout=1200, replay="skipstring", solver="cadical",
         claims="bounded: for every content, length and start position, the result equals the scalar oracle (first unescaped quote; escaped flag); both instantiations against the same oracle"))
+# Xmemcpy<16|32> (units avx2./sse.Xmemcpy_*, harnesses in specs/c15_xmemcpy.c): the sse bodies check in 100 s each at chunks <= 5, the
+# avx2 bodies (nested unrolled loops) exhaust the solver's memory even at that bound; no job runs them (DESIGN section 12).
 PROPS["C15"] = dict(level="other", jobs=C15_JOBS, trusted_base=COMMON_TRUST + MODEL_TRUST,
     native=[dict(id="ifunc_forwarders", kind="script", src="tools/ifunc_check.py",
                  obligation="C15.dispatch: every target(SONIC_WESTMERE/SONIC_HASWELL) wrapper in x86_ifuncs/*.h is `return <sse|avx2>::<same name>(<its parameters in order>);`")],
